@@ -28,6 +28,28 @@ func codecStep(fn, extra string, fieldIdx map[string]int) string {
 		return ".txt"
 	case "DataNsec":
 		return ".nsec"
+	case "DataDomainNames":
+		return ".names"
+	case "DataOpt":
+		return ".tlvs false"
+	case "DataSVCB":
+		return ".tlvs true"
+	case "DataApl":
+		return ".apl"
+	case "IPSECGateway":
+		// packIPSECGateway(rr.GatewayAddr, rr.GatewayHost, msg, off, rr.GatewayType[&0x7f], compression, false) /
+		// unpackIPSECGateway(msg, off, rr.GatewayType[&0x7f])
+		arg := strings.Split(extra, ",")[0]
+		mask := "false"
+		if strings.HasSuffix(arg, "&0x7f") {
+			mask = "true"
+			arg = strings.TrimSuffix(arg, "&0x7f")
+		}
+		if strings.HasPrefix(arg, "rr.") {
+			if i, ok := fieldIdx[strings.TrimPrefix(arg, "rr.")]; ok {
+				return fmt.Sprintf(".gateway %d %s", i, mask)
+			}
+		}
 	case "StringOctet":
 		return ".blobRest"
 	case "StringHex", "StringBase64", "StringBase32", "StringAny":
